@@ -83,6 +83,8 @@ type Recognition struct {
 	BadLine int       // NonConforming: 0-based index of the first line at which the text stops conforming
 	Rule    string    // NonConforming: the MUST rule that is broken; Undecided: why
 	Lines   []SrcLine
+	// LineAmbiguous: the text is non-conforming under every reading, but the readings place the first fault on different lines.
+	LineAmbiguous bool
 }
 
 // Recognise judges a text. It is a line automaton written from the
@@ -137,6 +139,15 @@ func Recognise(text string) *Recognition {
 		for i < len(lines) && !IsBlankST(lines[i].Text) {
 			t := lines[i].Text
 			if IsBlankSpec(t) {
+				// A line of blank characters that are not all space/tab. Read as a "blank line" (glossary) it ends the
+				// record, read as a summary line it is a summary consisting of blanks. If another line of this block
+				// follows that cannot start a record, both readings reject the text; otherwise the spec does not decide.
+				if i+1 < len(lines) && !IsBlankST(lines[i+1].Text) && !IsBlankSpec(lines[i+1].Text) {
+					if _, hv, _ := parseHeadline(lines[i+1].Text); hv == NonConforming {
+						res.LineAmbiguous = true
+						return bad(i, "blank line (blank characters other than space/tab) inside a record")
+					}
+				}
 				return undecided("line of blank characters other than space/tab inside a record")
 			}
 			if !inEntries {
